@@ -28,7 +28,6 @@ struct SchedParams {
 	uint32_t jitter_us = 0;      // usleep(d) sleeps d + U[0,jitter]
 	uint32_t preempt_permille = 0;   // chance that a task is descheduled at a lock / unlock point ...
 	uint32_t preempt_max_us = 0;     // ... for up to this long (simulated time passes: the "slow thread" fault)
-	uint64_t preempt_from_us = 0;    // not before this simulated time
 	uint32_t grid_us = 1;        // >1: every wake-up and every frame start is rounded up to a multiple of this (see grid_round)
 	uint64_t epoch0_us = 1700000000ULL * 1000000ULL;
 	uint64_t max_steps = 3000000;
@@ -109,6 +108,7 @@ void join(int task);
 void sleep_us(uint64_t us);          // advance on the simulated clock
 void yield(YieldKind k);
 uint64_t now_us();
+void preempt_enable(bool on);          // scheduling faults (starvation window, descheduling at lock points) allowed; the engine switches them off during bidib_start_*
 uint64_t grid_round(uint64_t t_us);   // next instant of the run's time grid at or after t
 int64_t time_s();          // value the wrapped time() returns now
 uint64_t step();
@@ -131,6 +131,12 @@ const std::vector<std::string> &lock_names();               // id -> name
 void clear_order_edges();
 std::string describe_tasks();
 std::string sym(void *addr);
+
+// ---- lockset monitor for GLib containers (library calls into g_queue_* / g_hash_table_* / g_array_*)
+void lockset_arm(bool on);            // arming clears what was learnt
+uint64_t lockset_checks();
+uint64_t lockset_shared_objects();
+void lockset_reset_counters();
 
 // ---- session / thread bookkeeping for lifecycle oracles ----
 struct ThreadEvent { char kind; int task; int by; int session; bool stale; };   // 'c' create, 'j' join
